@@ -353,7 +353,16 @@ const varTail = "+&<>'x"
 
 func (e *eng) varCase(r layRow, i int) {
 	d := e.env.Sub("var")
-	v := func(l int) string { return fmt.Sprintf("v%d%s", r.val(l), varTail) }
+	// a variable defined with the empty value is defined: in every third row with two or more defining
+	// levels the winner's value is the empty string (a lower level's value must not show through it)
+	emptyWin := i%3 == 1 && len(r.Defs) >= 2 && r.Expect != 0
+	vs := func(x int) string {
+		if emptyWin && x == r.Expect {
+			return ""
+		}
+		return fmt.Sprintf("v%d%s", x, varTail)
+	}
+	v := func(l int) string { return vs(r.val(l)) }
 	var y strings.Builder
 	if r.has(1) {
 		fmt.Fprintf(&y, "variables:\n  w: %s\n", yq(v(1)))
@@ -416,7 +425,7 @@ func (e *eng) varCase(r layRow, i int) {
 		}
 	}
 	line := func(x int) string {
-		return fmt.Sprintf("w=[v%d%s] root=[%s] tmp=[%s] args=[] list=[] o=[a,w=hijacked=1] e=[] tk=[user-variable-called-Task]", x, varTail, dd, os.TempDir())
+		return fmt.Sprintf("w=[%s] root=[%s] tmp=[%s] args=[] list=[] o=[a,w=hijacked=1] e=[] tk=[user-variable-called-Task]", vs(x), dd, os.TempDir())
 	}
 	var want []string
 	wantFail := false
@@ -453,7 +462,7 @@ func (e *eng) varCase(r layRow, i int) {
 		}
 		for _, x := range []int{r.Expect, r.Later} {
 			if x != 0 && (x == r.Expect || r.Mode == "stage") && len(exp) < len(want) {
-				exp = append(exp, fmt.Sprintf("w=[v%d%s]", x, varTail))
+				exp = append(exp, fmt.Sprintf("w=[%s]", vs(x)))
 			}
 		}
 		if r.Expect == 0 {
